@@ -32,6 +32,8 @@ first_missed = {
  'C12-d': 'cirq.If bodies that are CircuitOperations with their own controls under an enclosing key remap were not in the first menu; ifblock.* obligations added afterwards (they also found the sequential key replacement defect of multi-key conditions, repaired in /repo faa95c0)',
  'C16-c': 'qubit ids were only exercised with three fixed qubits; msgs.qubit_id.* (coordinates over negative / zero / multi-digit values, name templates) added afterwards',
  'C10-c': 'parameterized tags under one-step (non-recursive) resolution were not in the first version; resolve.tagged_once.* added afterwards',
+ 'C14-c': 'sparse_matrix was outside the first version; sparse.pauli_string / sparse.pauli_sum (every string incl. 2-4 Y factors, symbolic coefficients, scipy.sparse model) added afterwards',
+ 'C14-d': 'simulate_expectation_values was not exercised (only expectation_from_state_vector / density_matrix on given states); expect.simulator_arguments.* (non-default initial states, qubit orders, sweeps) added afterwards',
  'C19-b': 'the concrete KAK fall-back menu only had gates with interaction (x,0,0); matrix-only gates with generic coefficients added afterwards',
 }
 still = {
